@@ -13,7 +13,8 @@ incoming <host> <seq|win>  => <obs> <router> <proxies>  one HTTP connection thro
 diff <old> <new>           => <hostnames>               diffTunnels (stateless)
 ```
 tunnel = `host;target;insecure(0|1);timeout(s);headerHost;headerMode`, lists `,`-separated, `_` = empty.
-obs = `nf` (not forwarded) | `blocked` (did not proceed while the change was in progress) |
+obs = `nf` (not forwarded) | `blocked` (waits for the change in progress: the locked semantics;
+the harness then reports the connection again, as served, after `wend`) |
 `T=<backend>;H=<Host header the backend saw>;R=<ReadHeaderTimeout s>` | `bad;R=…` (bad gateway).
 router entry `host=target;insecure;timeout;headerHost;headerMode`, proxies entry `host:R`, sorted by host. -/
 namespace Specter.C44
@@ -109,6 +110,11 @@ def step' (d : D) (toks : List String) (rhs : String) : D × Verdict :=
         | some (old, new) => obs = obsStr h ((last old h).map (·.route)) || obs = obsStr h ((last new h).map (·.route))
       if h ≠ "" && !okNow then
         (d', .spec s!"connection for {h} served as [{obs}] but the current configuration says [{want}]")
+      else if d.s.window.isSome then
+        -- the code as it is resolves under configMu.RLock: a connection must not be resolved while a
+        -- change is in progress (the state keeps following the implementation so that later
+        -- connections are still judged by the spec oracle)
+        (d', .diff "blocked")
       else (d', cmp (obsStr h r ++ " " ++ dump d') rhs)
   | ["diff", o, n] =>
     match parseTunnels o, parseTunnels n with
